@@ -26,6 +26,11 @@ def main():
         tag = 'h' + var
     diff = os.path.join(src, 'variant_%s.diff' % var)
     demo = os.path.join(src, 'variant_%s.rs' % var)
+    if '--round3' in sys.argv:
+        src = '/tmp/wr-%s/demo' % pid
+        tag = 'r' + var
+        diff = os.path.join(src, 'variant_%s.diff' % var)
+        demo = os.path.join(src, 'variant_%s.rs' % var)
     res = {'property': pid, 'variant': var}
     if not (os.path.exists(diff) and os.path.exists(demo)):
         print(json.dumps(dict(res, error='missing files')))
@@ -87,7 +92,7 @@ def main():
             json.dump({
                 'breaks_property': pid,
                 'variant': tag,
-                'origin': 'independent sub-agent given only the property text and a scratch worktree' + (' (second round: asked for subtle changes - cooperating edits, narrow refactoring slips - avoiding the first round\'s mechanisms)' if tag.startswith('h') else ''),
+                'origin': 'independent sub-agent given only the property text and a scratch worktree' + (' (second round: asked for subtle changes - cooperating edits, narrow refactoring slips - avoiding the first round\'s mechanisms)' if tag.startswith('h') else ' (third round: a = a narrow-trigger "needle" change, b = one behaviour change hidden inside a 60+ line refactoring)' if tag.startswith('r') else ''),
                 'needs_to_manifest': 'see notes',
                 'notes_from_author': notes,
                 'confirmed_by': 'tools/eval_seeded.py in a scratch copy of /repo: existing suite with the change = 59 unit + 4 doc tests pass; demo (cargo test --test demo) fails with the change and passes without it',
